@@ -230,6 +230,18 @@ pub fn case(cx: &mut Cx, rng: &mut Rng) -> R {
     if rng.coin() {
         c12_on!(cx, rng, &abs, i64);
     } else {
+        // float weights: a NaN on a self-loop can never be part of a forest, so the minimum stays well defined, but it
+        // goes through the same priority queue as the other edges (MinScored documents a total order for floats)
+        let mut abs = abs.clone();
+        if abs.n > 0 && rng.chance(1, 3) {
+            for _ in 0..1 + rng.below(2) {
+                let v = rng.below(abs.n);
+                let pos = rng.below(abs.m() + 1);
+                abs.edges.insert(pos, (v, v, i64::MIN));
+            }
+            cx.count("feature:NaN-weight-on-self-loop");
+            cx.log(|| format!("with NaN self-loops: {}", abs.describe()));
+        }
         c12_on!(cx, rng, &abs, f64);
     }
     cx.config = "from_elements/StableGraph<u32>/holes->Graph".into();
